@@ -19,7 +19,7 @@ func init() { core.Register(&area{}) }
 func (a *area) Name() string { return "query" }
 
 // number of dedicated deterministic cases (witnesses of the recorded findings and fixed shapes)
-const nFixed = 12
+const nFixed = 16
 
 func (a *area) Run(c *core.Ctx) error {
 	for i := 0; i < c.N; i++ {
@@ -77,6 +77,11 @@ func newRun(c *core.Ctx, ivMs int64) (*run, error) {
 		declared: map[int]bool{}, series: map[int]seriesDef{}, oracleOn: true,
 		ticks: map[int64]int{}, famTick: map[int]int{}}
 	c.Op(fmt.Sprintf("reset %d %d", window, spf), "ok")
+	var sch []string
+	for _, id := range schemaOrder {
+		sch = append(sch, fmt.Sprintf("%d:%d", id, schema[id].ftype))
+	}
+	c.Op("schema "+strings.Join(sch, " "), "ok")
 	return r, nil
 }
 
@@ -271,6 +276,9 @@ func (r *run) region(q qSpec) string {
 	if r.sh.notFoundRegion(q, r.scopeSeries(q)) {
 		return "family-notfound"
 	}
+	if r.sh.singleFieldFileRegion(q) {
+		return "single-field-file"
+	}
 	return ""
 }
 
@@ -311,6 +319,13 @@ func (r *run) query(q qSpec) (aggResult, string) {
 	}
 	if r.oracleOn && reg == "" && implLine != "harness-error" && implLine != wantLine {
 		r.failed = true
+		var again []string
+		for k := 0; k < 3; k++ {
+			res2, em2, err2 := r.e.leafQuery(r.spf, q)
+			again = append(again, lineOf(res2, em2, err2))
+		}
+		r.c.Note(fmt.Sprintf("the same query asked again 3 times: %q", again))
+		fmt.Fprintf(os.Stderr, "MISMATCH seed %d %s\n first: %s\n want : %s\n again: %q\n schema: %s\n", r.c.Seed, q.sql(), implLine, wantLine, again, r.e.schemaDump())
 		r.c.Fail("query-ne-naive", fmt.Sprintf("%s [qs=%d qe=%d ratio=%d]: leaf answered %q, reference %q", q.sql(), q.qs, q.qe, q.ratio, implLine, wantLine))
 	}
 	return res, implLine
@@ -547,6 +562,12 @@ func genQuery(rng *rand.Rand, r *run, flds []int, useHist bool, fams []int) qSpe
 		q.by = []int{1, 2}
 	}
 	if firstLast && rng.Intn(4) != 0 {
+		q.by = []int{1, 2}
+	}
+	if firstLast && r.sh.maxFilesInRange(q) > 1 {
+		// several files of one family are read in a map iteration order: a first/last over
+		// several slots or several series spread over them is not reproducible
+		q.ratio = 1
 		q.by = []int{1, 2}
 	}
 	return q
